@@ -79,7 +79,7 @@ def parse_cases(stdout: str, tag: str = "CASE") -> list[Any]:
     return out
 
 
-def run_tlc(module: str, cfg: str | None = None, *, workers: int | str = "auto",
+def run_tlc(module: str, cfg: str | None = None, *, workers: int | str = 1,
             timeout: int = 600, simulate: str | None = None, depth: int | None = None,
             coverage: bool = False, env: dict[str, str] | None = None,
             scratch: Path | None = None, expect_violation: bool = False,
@@ -357,3 +357,64 @@ def b64u_dec(s: str | bytes) -> bytes:
     if isinstance(s, str):
         s = s.encode()
     return base64.urlsafe_b64decode(s + b"=" * (-len(s) % 4))
+
+
+# --------------------------------------------------------------------------- fresh-process execution
+
+def _fresh_call(args):
+    """Run fn(arg) in a forked child of this (light, joserfc-preloaded) worker so that process-global state the call
+    leaves behind (registered drafts, leaked caches) dies with it.  Returns fn's result."""
+    import pickle
+    fn, arg = args
+    r, w = os.pipe()
+    pid = os.fork()
+    if pid == 0:
+        try:
+            os.close(r)
+            try:
+                out = ("ok", fn(arg))
+            except BaseException as e:  # noqa
+                out = ("err", f"{type(e).__name__}: {e}\n{traceback.format_exc()}")
+            with os.fdopen(w, "wb") as f:
+                pickle.dump(out, f)
+        finally:
+            os._exit(0)
+    os.close(w)
+    with os.fdopen(r, "rb") as f:
+        data = f.read()
+    os.waitpid(pid, 0)
+    if not data:
+        return ("err", "child died without result")
+    return pickle.loads(data)
+
+
+def _fresh_init():
+    _pool_init()
+    import joserfc.jws, joserfc.jwe, joserfc.jwt, joserfc.jwk, joserfc.rfc7797  # noqa: preload, no draft registration
+
+
+class FreshPool:
+    """Create EARLY (while the parent is still small).  map(fn, items) runs every fn(item) in its own forked process."""
+
+    def __init__(self, procs: int | None = None):
+        import multiprocessing as mp
+        self.pool = mp.get_context("fork").Pool(procs or NCPU, initializer=_fresh_init)
+
+    def map(self, fn, items, chunksize: int = 1):
+        res = self.pool.map(_fresh_call, [(fn, it) for it in items], chunksize=chunksize)
+        out = []
+        for tag, val in res:
+            if tag != "ok":
+                raise MachineryError("worker failed: " + str(val))
+            out.append(val)
+        return out
+
+    def close(self):
+        self.pool.terminate()
+        self.pool.join()
+
+    def __enter__(self):
+        return self
+
+    def __exit__(self, *a):
+        self.close()
